@@ -499,11 +499,15 @@ func (l *PartitionLog) Read(ctx context.Context, offset int64, maxBytes int32) (
 		// Hold l.mu across both fallbacks so an in-flight flush cannot move
 		// batches from the buffer into flushingBatches (or commit a segment)
 		// between the two checks.
-		body := l.buffer.RecordsFrom(offset, maxBytes)
-		fromFlushWindow := false
+		//
+		// The in-flight batches were drained before anything now in the buffer
+		// was appended, so they hold the lower offsets: consult them first.
+		// Asking the buffer first would answer a fetch for an in-flight offset
+		// with the first buffered batch and silently skip the in-flight records.
+		body := recordsFromBatches(l.flushingBatches, offset, maxBytes)
+		fromFlushWindow := len(body) > 0
 		if len(body) == 0 {
-			body = recordsFromBatches(l.flushingBatches, offset, maxBytes)
-			fromFlushWindow = len(body) > 0
+			body = l.buffer.RecordsFrom(offset, maxBytes)
 		}
 		l.mu.Unlock()
 		if len(body) > 0 {
